@@ -194,7 +194,7 @@ type c20Exec struct {
 	reorgs     int
 	lastRead   c20Truth
 	snaps      []c20Snap
-	stalePrev  bool                // armed: the next gettxout is answered as of before the last chain event
+	stalePrev  bool                 // armed: the next gettxout is answered as of before the last chain event
 	prevTxOut  *txwatcher.TxOutResp // that answer
 	races      []c20Race
 	raceFired  int
@@ -220,7 +220,29 @@ func (x *c20Exec) truth() c20Truth {
 }
 
 func (x *c20Exec) add(key, detail string) {
+	if x.f.Race && x.moved() {
+		// input class: the chain tip moved between the block poller's read
+		// and the end of the observer's lookup
+		key += ":chain_moved_during_lookup"
+	}
 	x.viols = append(x.viols, mc.Violation{Property: "C20", Key: x.prefix() + ":" + key, Detail: detail})
+}
+
+// moved: the chain changed during the processing of the current notification.
+func (x *c20Exec) moved() bool {
+	now := time.Now()
+	var first *c20Truth
+	for i := range x.snaps {
+		if now.Sub(x.snaps[i].at) > c20Processing {
+			continue
+		}
+		if first == nil {
+			first = &x.snaps[i].t
+		} else if *first != x.snaps[i].t {
+			return true
+		}
+	}
+	return false
 }
 
 func (x *c20Exec) describe(r c20Report) string {
@@ -392,6 +414,10 @@ func (x *c20Exec) onCsv(swapID string) error {
 		x.add(fmt.Sprintf("csv_reported_at_depth=csv-%d", int(x.CSV)-t.depth()), x.describe(r))
 	} else {
 		x.flags["csv_true"] = true
+		if x.evName == "reg" {
+			// C18's concern, not C20's: the callback runs inside the registration call
+			x.flags["info_csv_callback_inside_registration_call"] = true
+		}
 		if t.Spent {
 			x.flags["csv_true_output_spent"] = true
 		}
@@ -955,7 +981,11 @@ func (a *c20RPC) obsKey() string {
 	if v.lastCount >= 0 {
 		lc = fmt.Sprintf("+%d", v.lastCount-int64(x.base))
 	}
-	return fmt.Sprintf("rpc:count=%s max=+%d hashIsTip=%v", lc, v.maxCount-int64(x.base), v.lastHash == tipHash)
+	prev := "nil"
+	if p := x.prevTxOut; p != nil {
+		prev = fmt.Sprintf("c%d/tip=%v", p.Confirmations, p.BestBlockHash == tipHash)
+	}
+	return fmt.Sprintf("rpc:count=%s max=+%d hashIsTip=%v prevTxOut=%s", lc, v.maxCount-int64(x.base), v.lastHash == tipHash, prev)
 }
 
 func (a *c20RPC) faults() []mc.Event {
@@ -1108,8 +1138,10 @@ func (a *c20El) GetRawTransaction(ctx context.Context, txHash string) (string, e
 func (a *c20El) BroadcastTransaction(context.Context, string) (string, error) {
 	return "", fmt.Errorf("not modelled")
 }
-func (a *c20El) GetFee(context.Context, uint32) (float32, error) { return 0, fmt.Errorf("not modelled") }
-func (a *c20El) Ping(context.Context) error                      { return nil }
+func (a *c20El) GetFee(context.Context, uint32) (float32, error) {
+	return 0, fmt.Errorf("not modelled")
+}
+func (a *c20El) Ping(context.Context) error { return nil }
 func (a *c20El) Reboot(context.Context) error {
 	if a.x.w.ShouldFail(c20Node, "electrum.reboot") {
 		return fmt.Errorf("electrum: reboot failed (injected)")
@@ -1594,6 +1626,7 @@ func TestC20(t *testing.T) {
 		rep.Outcomes["class:"+k] = n
 	}
 	// every violation must reproduce on 5 further replays before it is reported
+	runtime.GOMAXPROCS(1)
 	var stable []mc.Violation
 	for _, v := range rep.Violations {
 		f := c20FindFam(v.Scenario)
